@@ -21,7 +21,7 @@ type c13Peer struct {
 	Remote  string `json:"remote"`
 	Local   string `json:"local,omitempty"`
 	Passive bool   `json:"passive"`
-	State   string `json:"state"` // fresh aborted-in opensent openconfirm est-in est-out est-collision held-down deleted readded
+	State   string `json:"state"`           // fresh aborted-in opensent openconfirm est-in est-out est-collision held-down deleted readded
 	HD      string `json:"hd,omitempty"`    // held-down: state in which the protocol error is caused (default opensent)
 	ArmD    int64  `json:"arm_d,omitempty"` // est-collision: delay of the peer manager at its collision schedule point
 }
@@ -39,6 +39,7 @@ type c13Case struct {
 	// (what a dual-stack listener reports); the same address, the same verdict
 	Mapped bool    `json:"mapped,omitempty"`
 	Delays []int64 `json:"delays,omitempty"`
+	Gap2S  int     `json:"gap2_s,omitempty"` // held-down-2: seconds between the first and the second protocol error (default 61)
 }
 
 func c13Spec(p c13Peer, i int) world.PeerSpec {
@@ -162,7 +163,11 @@ func c13Prop(t *testing.T, r *hx.Run) func(c c13Case) hx.Verdict {
 					w.Settle()
 				}
 				if round == 0 && anyTwo {
-					w.Advance(61 * time.Second) // sit out the first hold-down (60 s)
+					gap := 61 * time.Second // sit out the first hold-down (60 s)
+					if c.Gap2S > 61 {
+						gap = time.Duration(c.Gap2S) * time.Second // e.g. past the 300 s after which the first error is forgotten
+					}
+					w.Advance(gap)
 				}
 			}
 			for _, i := range order {
@@ -390,6 +395,19 @@ func genC13(rt *rapid.T) c13Case {
 		c.Peers = append(c.Peers, p)
 	}
 	c.Closed = rapid.IntRange(0, 14).Draw(rt, "closed") == 0
+	for _, p := range c.Peers {
+		if p.State == "held-down-2" {
+			c.Gap2S = pick(rt, "gap2", 61, 61, 299, 301, 600)
+			break
+		}
+	}
+	for _, p := range c.Peers {
+		if p.State == "est-out" || p.State == "est-collision" {
+			// their outbound connection is made at Serve time and would sit out its
+			// 4-minute OpenSent timer during a long gap
+			c.Gap2S = min(c.Gap2S, 61)
+		}
+	}
 	// probe
 	tp := c.Peers[rapid.IntRange(0, len(c.Peers)-1).Draw(rt, "target")]
 	switch rapid.IntRange(0, 9).Draw(rt, "srckind") {
